@@ -55,7 +55,9 @@ Definition run_times (clk : positive) (nf : nat) (r : kstat) : jv :=
 (* ---- machines larger than any read buffer: the record is GENERATED from a few numbers (CPU i has
    counters base_j + i * step_j), printed by the kernel printer, and only sizes, a checksum of the
    printed bytes and the rows at the sampled indices [idx] are shipped (wave 8) *)
-Definition cksum (c : bytes) : Z := fold_left (fun a b => (a * 131 + b) mod 2305843009213693951) c 0.
+(* position-sensitive checksum without division: (sum of bytes, sum of the running sums) *)
+Definition cksum (c : bytes) : Z :=
+  let '(a, b) := fold_left (fun ab x => (fst ab + x, snd ab + (fst ab + x))) c (0, 0) in a + 1099511627776 * b.
 Definition big_stat (total : list Z) (n : nat) (base step : list Z) : kstat :=
   mk_stat total
           (map (fun i => (Z.of_nat i, zipw (fun b s => b + Z.of_nat i * s) base step)) (seq 0 n))
